@@ -525,107 +525,10 @@ fn replay_sync(args: &[String]) {
 /// C36: turn Doc.tla behaviours (map + list variant) into (a) a program for the C driver and (b) the observation
 /// lines the Rust API produces for the same operations, in the driver's output format.
 fn capi_expected(args: &[String]) {
-    use automerge::transaction::{CommitOptions, Transactable};
-    use std::fmt::Write as _;
     world::silence_panics();
     let text = std::fs::read_to_string(&args[2]).expect("behaviours");
-    let mut prog = String::new();
-    let mut exp = String::new();
-    let mut nb = 0;
-    fn hexs(b: &[u8]) -> String { hex::encode(b) }
-    fn item(v: &automerge::Value<'_>) -> String {
-        match v {
-            automerge::Value::Object(_) => "o".into(),
-            automerge::Value::Scalar(s) => match s.as_ref() {
-                automerge::ScalarValue::Int(i) => format!("i:{}", i),
-                automerge::ScalarValue::Uint(i) => format!("u:{}", i),
-                automerge::ScalarValue::Counter(c) => format!("c:{}", i64::from(c)),
-                automerge::ScalarValue::Boolean(b) => format!("b:{}", *b as i32),
-                automerge::ScalarValue::Null => "n".into(),
-                automerge::ScalarValue::Str(s) => format!("s:{}", s),
-                _ => "?".into(),
-            },
-        }
-    }
-    fn obs(r: i64, d: &Automerge) -> String {
-        let mut o = String::new();
-        let heads: Vec<String> = d.get_heads().iter().map(|h| hexs(h.as_ref())).collect();
-        write!(o, "O {} heads={} save={}", r, heads.join(","), hexs(&d.save())).unwrap();
-        for k in d.keys(automerge::ROOT) {
-            let all = d.get_all(automerge::ROOT, k.as_str()).unwrap_or_default();
-            write!(o, " {}=[{}]#0", k, all.iter().map(|(v, _)| item(v)).collect::<Vec<_>>().join("|")).unwrap();
-        }
-        if let Ok(Some((automerge::Value::Object(automerge::ObjType::List), l))) = d.get(automerge::ROOT, "l") {
-            let n = d.length(&l);
-            let vals: Vec<String> = d.list_range(&l, ..).map(|it| item(&automerge::Value::from(it.value.clone()))).collect();
-            write!(o, " l{}=[{}]", n, vals.join(",")).unwrap();
-            for i in 0..n {
-                write!(o, "/{}", d.get_all(&l, i).map(|a| a.len()).unwrap_or(0)).unwrap();
-            }
-        }
-        o
-    }
-    for line in text.lines().filter(|l| !l.trim().is_empty()) {
-        let beh: J = serde_json::from_str(line).expect("behaviour json");
-        writeln!(prog, "mode {}", nb % 3).unwrap();
-        nb += 1;
-        let mut reps: BTreeMap<i64, Automerge> = BTreeMap::new();
-        for k in 1..=3i64 {
-            reps.insert(k, Automerge::new().with_actor(enc::actor_from_num(k as u8)));
-            writeln!(prog, "new {} {}", k, k).unwrap();
-        }
-        {
-            let d = reps.get_mut(&1).unwrap();
-            let mut tx = d.transaction();
-            for c in [json!({"fn":"put_object","obj":[0,0],"key":"l","ty":"list"}),
-                      json!({"fn":"insert","obj":[1,1],"idx":0,"val":{"k":"counter","s":"","n":1,"toks":[]}}),
-                      json!({"fn":"insert","obj":[1,1],"idx":1,"val":{"k":"int","s":"7","n":0,"toks":[]}})] {
-                calls::exec(&mut tx, &c);
-            }
-            tx.commit_with(CommitOptions::default().with_time(0));
-            writeln!(prog, "base 1").unwrap();
-            let mut base = reps[&1].clone();
-            for k in 2..=3i64 {
-                reps.get_mut(&k).unwrap().merge(&mut base).unwrap();
-                writeln!(prog, "merge {} 1", k).unwrap();
-            }
-        }
-        for step in beh.as_array().unwrap() {
-            let r = step["r"].as_i64().unwrap();
-            if let Some(s) = step.get("merge").and_then(|m| m.as_i64()) {
-                let mut other = reps[&s].clone();
-                let _ = reps.get_mut(&r).unwrap().merge(&mut other);
-                writeln!(prog, "merge {} {}", r, s).unwrap();
-            } else if step.get("call").is_some() && step.get("rolledback").is_none() && step.get("isoat").is_none() {
-                let c = &step["call"];
-                let f = c["fn"].as_str().unwrap_or("");
-                let islist = c["obj"][0].as_i64() != Some(0);
-                let kind = |v: &J| if v["k"] == "counter" { ("c", v["n"].as_i64().unwrap_or(0)) } else { ("i", v["s"].as_str().unwrap_or("0").parse::<i64>().unwrap_or(0)) };
-                let pl = match (f, islist) {
-                    ("put", false) => { let (k, v) = kind(&c["val"]); format!("mput {} {} {} {}", r, c["key"].as_str().unwrap_or("k1"), k, v) }
-                    ("delete", false) => format!("mdel {} {}", r, c["key"].as_str().unwrap_or("k1")),
-                    ("increment", false) => format!("minc {} {} {}", r, c["key"].as_str().unwrap_or("k1"), c["by"]),
-                    ("put", true) => { let (k, v) = kind(&c["val"]); format!("lput {} {} {} {}", r, c["idx"], k, v) }
-                    ("insert", true) => { let (k, v) = kind(&c["val"]); format!("lins {} {} {} {}", r, c["idx"], k, v) }
-                    ("delete", true) => format!("ldel {} {}", r, c["idx"]),
-                    ("increment", true) => format!("linc {} {} {}", r, c["idx"], c["by"]),
-                    _ => continue,
-                };
-                writeln!(prog, "{}", pl).unwrap();
-                let d = reps.get_mut(&r).unwrap();
-                let mut tx = d.transaction();
-                let out = calls::exec(&mut tx, c);
-                tx.commit_with(CommitOptions::default().with_time(0));
-                writeln!(exp, "R {}", if out["res"] == "ok" { "ok" } else { "err" }).unwrap();
-            } else {
-                continue;
-            }
-            writeln!(prog, "obs {}", r).unwrap();
-            writeln!(exp, "{}", obs(r, &reps[&r])).unwrap();
-        }
-        writeln!(prog, "reset").unwrap();
-        writeln!(exp, "X").unwrap();
-    }
+    let epilogue = args.get(5).map(|s| s == "epilogue").unwrap_or(false);
+    let (prog, exp, nb) = amverif::capix::programs(&text, epilogue);
     std::fs::write(&args[3], prog).unwrap();
     std::fs::write(&args[4], exp).unwrap();
     println!("REPLAY capi behaviours={}", nb);
